@@ -168,6 +168,10 @@ func plans(id, tier string) (Plan, bool) {
 			jobs = append(jobs, Job{Pkg: pkgSC, Harness: "c14_sched", Instr: "v1", Params: fmt.Sprintf("scenario=%d;policy=delay;budget=%d", sc, pick(3, 5)), Shards: pick(2, 8)})
 		}
 		jobs = append(jobs, Job{Pkg: pkgSC, Harness: "c14_sched", Instr: "v1", Params: "scenario=0;precomputed=yes;policy=delay;budget=" + fmt.Sprint(pick(3, 5)), Shards: pick(2, 8)})
+		// scheduling points after operations too (between a release and the code that follows it)
+		for _, sc := range map[bool][]int{false: {0, 1, 3, 9}, true: {0, 1, 2, 3, 4, 7, 8, 9, 10, 11}}[th] {
+			jobs = append(jobs, Job{Pkg: pkgSC, Harness: "c14_sched", Instr: "v1", Params: fmt.Sprintf("scenario=%d;postyield=yes;policy=delay;budget=%d", sc, pick(2, 3)), Shards: pick(2, 8)})
+		}
 		if th {
 			for _, sc := range []int{0, 1, 2, 3, 4, 7, 9, 10} {
 				jobs = append(jobs, Job{Pkg: pkgSC, Harness: "c14_sched", Instr: "v1", Params: fmt.Sprintf("scenario=%d;policy=preemption;budget=1;split=10", sc), Shards: 16})
@@ -199,6 +203,7 @@ func plans(id, tier string) (Plan, bool) {
 	case "C17":
 		return Plan{Level: "exploration", Jobs: []Job{
 			{Pkg: pkgTok, Harness: "c17_tokens", Shards: pick(4, 16)},
+			{Pkg: pkgTok, Harness: "c17_tokens", Params: "alphabet=classes", Shards: pick(4, 16)},
 			{Pkg: pkgSS, Harness: "c17_candidates", Shards: 16},
 			{Pkg: pkgSS, Harness: "c17_candidates", Params: "alphabet=ab", Shards: 16},
 		}}, true
@@ -224,6 +229,11 @@ func plans(id, tier string) (Plan, bool) {
 		// unreadable files first / everywhere (error channel and token handling)
 		for _, v := range []string{"files=2;tasks=1;rot=1", "files=3;tasks=2;rot=1", "files=3;tasks=1;missing=all", "files=3;tasks=2;missing=most", "files=4;tasks=3;missing=all"} {
 			jobs = append(jobs, Job{Pkg: pkgBackend, Harness: "c19_pool", Instr: "backend", Params: v + fmt.Sprintf(";headers=yes;policy=preemption;budget=%d", pick(1, 2)), Shards: pick(2, 8)})
+		}
+		// scheduling points after operations too (a worker preempted between handing its token back and
+		// what it does next): files > tasks so that tokens are reused
+		for _, v := range map[bool][]string{false: {"files=2;tasks=1", "files=3;tasks=2"}, true: {"files=2;tasks=1", "files=3;tasks=1", "files=3;tasks=2", "files=4;tasks=2"}}[th] {
+			jobs = append(jobs, Job{Pkg: pkgBackend, Harness: "c19_pool", Instr: "backend", Params: v + fmt.Sprintf(";headers=yes;postyield=yes;policy=preemption;budget=%d", pick(1, 2)), Shards: pick(2, 8)})
 		}
 		if th {
 			// every interleaving at all (no preemption bound) for the smallest configurations
